@@ -94,11 +94,11 @@ def ser_well_posed(src_cycle, budget, stations, sink_cycle):
 
 
 def ser_family(n_max=2, src_cycles=(0, 1, 2), sink_cycles=(0, 1), budgets=(None, 2),
-               horizon=5, thorough=False):
-    '''All serial lines Source -> stations^n -> Sink, n <= n_max.  Yields
+               horizon=5, thorough=False, n_min=0, opts=None):
+    '''All serial lines Source -> stations^n -> Sink, n_min <= n <= n_max.  Yields
     (spec, wellposed).'''
-    opts = station_options(thorough)
-    for n in range(n_max + 1):
+    opts = opts or station_options(thorough)
+    for n in range(n_min, n_max + 1):
         for stations in itertools.product(opts, repeat=n):
             for sc in src_cycles:
                 for kc in sink_cycles:
@@ -528,4 +528,21 @@ def LATE(K=1, horizon=5, ops=None, creates=None, name=''):
         ops = [['create'] + c for c in creates]
     s = spec(f'LATE{name}[K{K}]', devs, horizon, ops, K)
     s['late'] = LATE_DEVICES
+    return s
+
+
+def EX_SINGLE_PROCESSOR():
+    '''examples/SingleProcessor.py (documented result: 99 parts).'''
+    s = spec('EX-SingleProcessor', [src('S', 1), proc('M1', ['S'], 1), sink('K', ['M1'])], 100)
+    s['max_parts'] = 128
+    s['documented_count'] = 99
+    return s
+
+
+def EX_BUFFER():
+    '''examples/BufferExample.py (documented result: 10079 parts).'''
+    s = spec('EX-BufferExample', [src('S', 0), proc('M1', ['S'], 1), buf('B1', ['M1'], 5), proc('M2', ['B1'], 1),
+                                  sink('K', ['M2'])], 60 * 24 * 7)
+    s['max_parts'] = 10200
+    s['documented_count'] = 10079
     return s
